@@ -67,7 +67,7 @@ func (stdoutWriter) Write(p []byte) (int, error) { fmt.Print(string(p)); return 
 
 func init() {
 	extraDumps["writers"] = func(w *World) {
-		for _, n := range []string{"(*Encoder).writeList", "(*Encoder).writeMap", "(*Encoder).writeObject", "(*Encoder).writeClsDef", "(*Encoder).writeRef"} {
+		for _, n := range []string{"(*Encoder).writeList", "(*Encoder).writeMap", "(*Encoder).writeObject", "(*Encoder).writeRef"} {
 			fn := w.role(n)
 			if fn == nil {
 				continue
@@ -93,6 +93,14 @@ func init() {
 					}
 					if e.Kind == "loophead" {
 						s = "L"
+					}
+					if e.Kind == "fieldstore" {
+						s += " " + e.Extra + "=" + e.Args[0].key
+					}
+					if strings.HasPrefix(e.Kind, "scalar:") {
+						for _, a := range e.Args {
+							s += " " + a.key
+						}
 					}
 					parts = append(parts, s)
 				}
